@@ -342,3 +342,78 @@ def mk_concat_perm3(axis, tier='quick'):
 
 _add(mk_concat_perm3(0))
 _add(mk_concat_perm3(1))
+
+
+# ---------------------------------------------------------------- three inputs of differing dtype WIDTH (and kind): no cell is narrowed
+
+CONCAT_KINDS = (('<U1', ('a', 'b')), ('<U5', ('ccccc', 'ddd')), ('int64', (3, 4)), ('float64', (1.5, 2.5)), ('bool', (True, False)))
+
+
+def body_concat_widths(env, k0, k1, k2, how):
+    from vf import rt
+    ks = [concretize(v, 0, len(CONCAT_KINDS) - 1) for v in (k0, k1, k2)]
+    how = concretize(how, 0, 3)
+
+    def run():
+        sf = env.sf
+        parts = [CONCAT_KINDS[k] for k in ks]
+        vals = [list(p[1]) for p in parts]
+        flat = [v for vs in vals for v in vs]
+        if how == 0:
+            ser = [sf.Series(env.array(vs, p[0]), index=[10 * (i + 1), 10 * (i + 1) + 1]) for i, (vs, p) in enumerate(zip(vals, parts))]
+            r = sf.Series.from_concat(ser)
+            return [env.obs(r.values.tolist()), env.obs(r.index.values.tolist())], [flat, [10, 11, 20, 21, 30, 31]]
+        if how == 1:
+            # the LABELS are concatenated the same way
+            ser = [sf.Series(env.array([i, i + 10], 'int64'), index=sf.Index(env.array(vs, p[0]))) for i, (vs, p) in enumerate(zip(vals, parts))]
+            labels_distinct = len(set((type(v).__name__, v) for v in flat)) == len(flat) and len(set(flat)) == len(flat)
+            if not labels_distinct:
+                return ['outside: duplicate labels'], ['outside: duplicate labels']
+            r = sf.Series.from_concat(ser)
+            return [env.obs(r.index.values.tolist()), env.obs(r.values.tolist())], [flat, [0, 10, 1, 11, 2, 12]]
+        if how == 2:
+            frames = [sf.Frame.from_items((('x', env.array(vs, p[0])),), index=[10 * (i + 1), 10 * (i + 1) + 1]) for i, (vs, p) in enumerate(zip(vals, parts))]
+            r = sf.Frame.from_concat(frames)
+            return [env.obs(r['x'].values.tolist()), env.obs(r.index.values.tolist())], [flat, [10, 11, 20, 21, 30, 31]]
+        items = [(('p', 'q', 'r')[i], sf.Series(env.array(vs, p[0]), index=[0, 1])) for i, (vs, p) in enumerate(zip(vals, parts))]
+        r = sf.Series.from_concat_items(items)
+        return [env.obs(r.values.tolist()), env.obs([list(t) for t in r.index])], [flat, [[o, i] for o in ('p', 'q', 'r') for i in (0, 1)]]
+    return rt.untraced(run)
+
+
+_add(Cond('concat_three_inputs_dtype_widths', [('k0', 'int'), ('k1', 'int'), ('k2', 'int'), ('how', 'int')], body_concat_widths,
+        ranges={'k0': (0, 4), 'k1': (0, 4), 'k2': (0, 4), 'how': (0, 3)},
+        functions=['concat_resolved', 'Series.from_concat'],
+        bounds=f'three inputs of 2 cells; the dtype of every input symbolic over {[k for k, _ in CONCAT_KINDS]} (narrow / wide strings in every order, mixed kinds); Series.from_concat values, Series.from_concat labels, Frame.from_concat, Series.from_concat_items (symbolic)',
+        route='concatenation of three inputs: every cell (and label) arrives unchanged whatever the dtype of its neighbours', timeout=400))
+
+
+# ---------------------------------------------------------------- overlay over every block layout of the first container
+
+def body_overlay_layouts(env, a0, a1, a2, b0, b1, b2):
+    from vf import rt
+    fa_, fb_ = [bool(a0), bool(a1), bool(a2)], [bool(b0), bool(b1), bool(b2)]
+
+    def run():
+        sf = env.sf
+        from static_frame.core.type_blocks import TypeBlocks
+        M = 'NaN'
+        ra = [[(env.nan if fa_[c] and r == 0 else 100 + 10 * r + c) for c in range(3)] for r in range(2)]
+        rb = [[(env.nan if fb_[c] and r == 0 else 200 + 10 * r + c) for c in range(3)] for r in range(2)]
+        ref = [[(M if (fa_[c] and r == 0 and fb_[c]) else (200 + 10 * r + c if (fa_[c] and r == 0) else 100 + 10 * r + c)) for c in range(3)] for r in range(2)]
+        cols_b = [[rb[r][c] for r in range(2)] for c in range(3)]
+        fb = sf.Frame(TypeBlocks.from_blocks(layouts.build_blocks(env, cols_b, 'float64', ((1, 1), (1, 1), (1, 1)))), index=[10, 11], columns=['a', 'b', 'c'])
+        cols_a = [[ra[r][c] for r in range(2)] for c in range(3)]
+        got = []
+        for lay in layouts.compositions(3):
+            fa = sf.Frame(TypeBlocks.from_blocks(layouts.build_blocks(env, cols_a, 'float64', lay)), index=[10, 11], columns=['a', 'b', 'c'])
+            r = sf.Frame.from_overlay((fa, fb))
+            got.append([env.obs(r.values.tolist()), env.obs(r.columns.values.tolist()), env.obs(r.index.values.tolist())])
+        return got, [[ref, ['a', 'b', 'c'], [10, 11]]] * len(got)
+    return rt.untraced(run)
+
+
+_add(Cond('frame_overlay_all_layouts', [(p, 'bool') for p in ('a0', 'a1', 'a2', 'b0', 'b1', 'b2')], body_overlay_layouts,
+        functions=['Frame.from_overlay', 'TypeBlocks.fillna_by_values'],
+        bounds='two 2x3 float64 frames with equal labels; first-row cells of either frame possibly missing (one symbolic Boolean per column and frame); the FIRST frame in every block layout of 3 columns',
+        route='Frame.from_overlay: per cell the first non-missing value, whatever blocks hold the first container (blocks without missing cells before blocks with them)', timeout=300))
